@@ -679,3 +679,123 @@ def recv_sites(body):
 def user_code(body):
     """Is this body written in the repository (not a macro-internal closure of a dependency)?"""
     return body.span["f"].startswith("src/")
+
+
+# ----------------------------------------------------------------------------------------
+# iterations of a (flattened) body: `it.for_each(|e| ..)`, `it.all(|e| ..)` and `for e in it { .. }`
+# all have the shape  loop { match Iterator::next(&mut it) { Some(e) => body, None => break } }
+# ----------------------------------------------------------------------------------------
+
+class Iteration:
+    """One loop around an Iterator::next call in `body` (normally a flattened body)."""
+
+    def __init__(self, body, nbi, nt):
+        self.body = body
+        self.nbi = nbi
+        self.nt = nt
+        self.res = norm(body.call_expr(nt, True))
+        self.payload = ("field", ("downcast", self.res, "Some"), "0")
+        self.some = self.none = None
+        for b2 in body.succs(nbi):
+            for tgt, atom, pol in edge_literals(body, b2):
+                if atom is not None and atom[0] == "variant" and pol:
+                    if atom[2] == "Some":
+                        self.some = tgt
+                    elif atom[2] == "None":
+                        self.none = tgt
+        cut = [(p_, nbi) for p_ in body.preds(nbi)]
+        self.region = set()
+        if self.some is not None:
+            fwd = body.reachable(self.some, removed_edges=cut)
+            self.region = {b for b in fwd if nbi in body.reachable(b)}
+        # variables that name the element (or a component of a tuple element)
+        self.elem_vars = {}
+        pl_payload = None
+        for b in sorted(self.region):
+            for si, st in enumerate(body.blocks[b]["stmts"]):
+                if st["k"] != "assign" or st["pl"]["p"]:
+                    continue
+                name = body.local_name.get(st["pl"]["l"])
+                if name is None:
+                    continue
+                e = norm(body.rvalue_expr(st["rv"], True))
+                if e == self.payload:
+                    self.elem_vars[("var", name)] = ("elem",)
+                elif e[0] == "field" and e[1] == self.payload:
+                    self.elem_vars[("var", name)] = ("field", ("elem",), e[2])
+        self.source = self._source()
+
+    def _source(self):
+        """What is iterated: the expression the iterator was made from (into_iter / `&mut` stripped)."""
+        body = self.body
+        a = self.nt["args"][0]
+        cur = a["pl"]["l"] if a.get("k") in ("move", "copy") and not a["pl"]["p"] else None
+        for _ in range(6):
+            if cur is None:
+                break
+            rd = body.defs.get(cur, [])
+            outside = [d for d in rd if d[0] not in self.region and d[0] != self.nbi] or rd
+            if len(outside) != 1:
+                break
+            rb, rs = outside[0]
+            bb = body.blocks[rb]
+            if rs >= len(bb["stmts"]):
+                e = norm(body.call_expr(bb["term"], True))
+                if is_call(e, "into_iter") or is_call(e, "IntoIterator::into_iter"):
+                    return norm(e[2][0])
+                return e
+            st = bb["stmts"][rs]
+            rv = st["rv"]
+            if rv["k"] == "ref" and (not rv["pl"]["p"] or rv["pl"]["p"] == ["*"]):
+                cur = rv["pl"]["l"]
+                continue
+            if rv["k"] == "use" and rv["op"].get("k") in ("move", "copy") and not rv["op"]["pl"]["p"]:
+                cur = rv["op"]["pl"]["l"]
+                continue
+            return norm(body.rvalue_expr(rv, True))
+        return norm(body.expand(norm(body.call_args(self.nt)[0])))
+
+    def canon(self, e):
+        """e with the element (and variables naming it) replaced by ('elem',)."""
+        e = norm(self.body.expand(norm(e)))
+        m = dict(self.elem_vars)
+        m[self.payload] = ("elem",)
+        return norm(subst(e, m))
+
+    def is_elem(self, e):
+        return self.canon(e) == ("elem",)
+
+    def calls_to(self, *names):
+        return [(bi, t) for bi, t in self.body.calls() if bi in self.region and any(callee_matches(self.body.callee_of(t), n) for n in names)]
+
+    def deref_writes(self):
+        """Assignments through a pointer inside the region: (bi, si, stmt)."""
+        return [(b, si, st) for b in sorted(self.region) for si, st in enumerate(self.body.blocks[b]["stmts"]) if st["k"] == "assign" and "*" in st["pl"]["p"]]
+
+    def every_round(self, blocks):
+        """Every path from the start of a round to the next next() call passes one of `blocks`."""
+        return self.some is not None and must_pass_through(self.body, list(blocks), from_bi=self.some, exits=[self.nbi])
+
+    def once_per_round(self, bi):
+        cut = [(p_, self.nbi) for p_ in self.body.preds(self.nbi)]
+        again = set()
+        for s2 in self.body.succs(bi):
+            again |= self.body.reachable(s2, removed_edges=cut)
+        return bi not in again
+
+
+def iterations(body):
+    out = []
+    for bi, t in body.calls():
+        if callee_matches(body.callee_of(t), "Iterator::next") and body.in_loop(bi):
+            it = Iteration(body, bi, t)
+            if it.some is not None:
+                out.append(it)
+    return out
+
+
+def single_iteration(facts, body):
+    """The unique iteration of the flattened `body`, or None."""
+    fb = facts.flat(body)
+    its = iterations(fb)
+    return its[0] if len(its) == 1 else None
